@@ -1,17 +1,119 @@
-"""C09 — see checks/connfamily.py (shared engine of the connection family) and coq/Properties/C09.v."""
+"""C09 — see checks/connfamily.py (shared engine of the connection family) and coq/Properties/C09.v.
+
+Besides the labelled-trace stories of the connection family (plaintext), the encrypted connect phase is probed for its time
+bound: a device that accepts the TCP connection and then stays silent - or stops talking at any later point of the Noise
+handshake / hello / login - must make finish_connection() fail with a library error exactly when the model's armed deadline
+passes (HANDSHAKE_TIMEOUT after the helper was created while the handshake is incomplete, CONNECT_REQUEST_TIMEOUT after the
+hello was written otherwise; constants re-read from the source), on a clock that does not start at zero."""
+import asyncio
+import json
+
 from checks import connfamily
+from vlib import common, conntrace, simnet
 
 VFILE = "Properties/C09.v"
 RULE = ("stories = hand-picked same-turn/close-window scenarios + (thorough) every position x every single extra event of base stories "
         "+ random connect/traffic/close stories with hop-delayed injections (vlib/connstories.py); each story runs on the real APIConnection "
         "under the virtual-time loop with every event-loop callback labelled, the model must accept the label sequence with equal "
-        "projections/observations, and the C09 predicate is evaluated on the implementation's trace; non-trivial = the connection closes "
+        "projections/observations, and the C09 predicate is evaluated on the implementation's trace; plus silence probes at every stage of "
+        "the encrypted and plaintext connect phases (time of the failure and its class); non-trivial = the connection closes "
         "within a story of at least 8 labelled callbacks; distinct by label sequence")
+
+STAGES = ["tcp", "hello-frame", "handshake", "hello-response"]
+
+
+def consts():
+    import re
+    txt = (common.COQ / "Generated" / "GenConstants.v").read_text()
+    return {m.group(1): int(m.group(2)) for m in re.finditer(r"Definition (\w+) : Z := \((-?\d+)\)%Z\.", txt)}
+
+
+def silence_probe(noise, stage, login):
+    """device goes silent after `stage`; returns (seconds until finish_connection ended, error class | 'ok' | 'pending')"""
+    async def go(loop):
+        from aioesphomeapi import api_pb2 as pb
+        from aioesphomeapi.connection import APIConnection, ConnectionParams
+        from aioesphomeapi.zeroconf import ZeroconfManager
+        from vlib import noisesim
+        net = simnet.Net(loop)
+        psk = bytes(range(1, 33))
+        params = ConnectionParams(addresses=["10.0.0.1"], port=6053, password="pw" if login else None, client_info="v", keepalive=20.0,
+                                  zeroconf_manager=ZeroconfManager(), noise_psk=noisesim.b64(psk) if noise else None, expected_name=None)
+        conn = APIConnection(params, lambda e: None, False, None)
+        with net.patched():
+            await conn.start_connection()
+            t0 = loop.time()
+            task = asyncio.ensure_future(conn.finish_connection(login=login))
+            await simnet.drain(loop)
+            tr = net.transports[-1]
+            if noise and stage != "tcp":
+                frames = noisesim.split_frames(b"".join(d for _, d in tr.writes))
+                resp = noisesim.Responder(psk, b"dev")
+                hs, _ = resp.handshake_frames(frames[1][1:])
+                tr.feed(resp.hello_frame())
+                await simnet.drain(loop)
+                if stage in ("handshake", "hello-response"):
+                    tr.feed(hs)
+                    await simnet.drain(loop)
+                if stage == "hello-response":
+                    tr.feed(resp.data_frame(2, pb.HelloResponse(api_version_major=1, api_version_minor=10, name="dev").SerializeToString())[0])
+                    await simnet.drain(loop)
+            elif not noise and stage == "hello-response":
+                tr.feed(simnet.plain_msg(pb.HelloResponse(api_version_major=1, api_version_minor=10, name="dev")))
+                await simnet.drain(loop)
+            # let time pass one second at a time, for at most ten minutes
+            for _ in range(600):
+                if task.done():
+                    break
+                await simnet.advance(loop, by=1.0)
+            elapsed = loop.time() - t0
+            if not task.done():
+                task.cancel()
+                out = "pending"
+            elif task.cancelled():
+                out = "C"
+            elif task.exception() is None:
+                out = "ok"
+            else:
+                out = conntrace.exc_name(task.exception())
+            conn.force_disconnect()
+            await simnet.drain(loop)
+            return round(elapsed * 1024), out
+    return simnet.run(go)
 
 
 def run(rep, tier, seed):
     connfamily.run(rep, tier, seed, "C09", VFILE, RULE)
+    c = consts()
+    for noise in (True, False):
+        for stage in STAGES:
+            if not noise and stage in ("hello-frame", "handshake"):
+                continue
+            for login in (False, True):
+                if stage == "hello-response" and not login:
+                    continue          # the session is established: nothing is awaited
+                elapsed, out = silence_probe(noise, stage, login)
+                # the model's deadline for this stage
+                if noise and stage in ("tcp", "hello-frame"):
+                    want = c["HANDSHAKE_TIMEOUT"]
+                else:
+                    want = c["CONNECT_REQUEST_TIMEOUT"]
+                replay = {"kind": "silence-probe", "noise": noise, "stage": stage, "login": login}
+                rep.case(("silence", noise, stage, login), nontrivial=True, sample={"probe": replay, "elapsed_units": elapsed, "outcome": out})
+                rep.bump("probe:silence")
+                where = f"{'noise' if noise else 'plaintext'} device silent after {stage} (login={login})"
+                if out in ("pending", "ok"):
+                    rep.violation("C09/hang", f"{where}: finish_connection() {'still pending after ten minutes' if out == 'pending' else 'succeeded'}", replay)
+                elif not out.startswith("L."):
+                    rep.violation("C09/raw-error", f"{where}: finish_connection() ended with {out}", replay)
+                elif elapsed != want:
+                    rep.violation("C09/bound", f"{where}: finish_connection() failed after {elapsed} units (1/1024 s), the armed deadline is {want}", replay)
 
 
 def replay(path):
+    d = json.loads(open(path).read())["replay"]
+    if d.get("kind") == "silence-probe":
+        common.setup_impl_path()
+        print(silence_probe(d["noise"], d["stage"], d["login"]))
+        return 0
     return connfamily.replay(path, "C09")
